@@ -63,7 +63,7 @@ func TestColdStart(t *testing.T) {
 				restore()
 			}
 		}
-		for _, text := range []string{"2024-02-29", "20240229", "2023-02-29", "20230229", "0000-01-01", "9999-12-31", "10000-01-01", "2024-13-01", "2024-00-10", "2024-1-01", "2024-01-1", "202-01-01", "2024-0101", "202401-01", "", "x", "2024-02-29 ", " 2024-02-29", "2024-02-30", "1900-02-29", "2000-02-29", "２０２４-02-29"} {
+		for _, text := range []string{"2024-02-29", "20240229", "2023-02-29", "20230229", "2000-01-01", "1999-12-31", "2011-12-30", "\x00", "0000-01-01", "9999-12-31", "10000-01-01", "2024-13-01", "2024-00-10", "2024-1-01", "2024-01-1", "202-01-01", "2024-0101", "202401-01", "", "x", "2024-02-29 ", " 2024-02-29", "2024-02-30", "1900-02-29", "2000-02-29", "２０２４-02-29"} {
 			for _, rule := range []int{0, int(date.RuleDisableBasic)} {
 				judge(Case{Text: vkit.B(text), Rule: rule, Limit: 10}, w)
 			}
